@@ -1,5 +1,5 @@
 (* C08 — balances lists each address once with the sum of its unspent outputs. Pinned statements only: each theorem is closed by `exact` of a lemma proved in theories/. *)
-From RBP Require Import Bytes Hashes Wire Block BlockP Render Index IndexP Model ModelP StoreP CsvP CbP BalanceP.
+From RBP Require Import Bytes Hashes Wire Block BlockP Render Index IndexP Model ModelP StoreP CsvP CbP BalanceP RowsP.
 From RBP Require Drive Merkle Utxo Stats OutProto Reader Published Misc.
 
 Theorem C08_balance_is_sum :
@@ -34,6 +34,10 @@ Theorem C08_rows_le_unspent_rows :
   forall m : list (bytes * uval), (length (balances_final m) <= length m)%nat.
 Proof. exact balances_rows_le_unspent_rows. Qed.
 
+Theorem C08_listed_row_splits_into_its_fields :
+  forall (c : coin) (blocks : list (N * block)) (a : list N) (s : N), In (a, s) (balances_final (utxo_final (map (fun hb : N * block => (fst hb, eval_block c (snd hb))) blocks))) -> fields_of_row (balance_row (a, s)) = [a; dec s].
+Proof. exact listed_balance_row_fields. Qed.
+
 Print Assumptions C08_balance_is_sum.
 Print Assumptions C08_one_row_per_address.
 Print Assumptions C08_generic_sum.
@@ -42,3 +46,4 @@ Print Assumptions C08_balances_conserve_value.
 Print Assumptions C08_any_iteration_order.
 Print Assumptions C08_addresses_are_owners.
 Print Assumptions C08_rows_le_unspent_rows.
+Print Assumptions C08_listed_row_splits_into_its_fields.
